@@ -30,6 +30,8 @@ RATES = [
     "a/x", "-b/(k + x)", "a*x/(b + x)", "-x/(k + x)**2", "a/(x*x) - x", "y/(1 + x)**3",
     # real (integer-valued) exponents on products / quotients that contain the own state: sympy's general power rule gives
     # p*u**p/x, 0/0 at x = 0 (fixed d681e38)
+    # floor / Mod of time and of OTHER quantities next to a smooth own-state term: the linearisation is the smooth part's
+    "-k*x + a*floor(t/tau)", "-k*x + Mod(t, b)", "a*floor(y) - x/tau", "-x*floor(t) + a", "Mod(y, b)*(1 - x) - k*x", "-k*x*x + floor(t/tau)*y",
     "y - (a*x)**2.0 - x", "-(x*y)**2.0 - x + a", "a - (x/tau)**3.0", "-x*(b*x)**2.0 - k*x", "y - exp(-(a*x)**2.0) - x", "-(a*x)**2.0/(1 + y*y) - x",
 ]
 
